@@ -592,4 +592,20 @@ Section ElemStep.
     rewrite bind_ok with (a := l) (s1 := s) by reflexivity.
     apply (run_helper_inplace_err_frame (length (heap s)) l hp a h s c d k); auto.
   Qed.
+
+  (* del obj.a *)
+  Theorem delattr_op_err_frame roots x a s l c d k e :
+    nth x roots VNone = VRef l -> l < length (heap s) ->
+    nth_error (heap s) l = Some (OInst c d) -> lookup_cls ct c = Some k ->
+    no_dependants k a ->
+    fst (step ct roots (OpDelAttr x a) s) = Err e ->
+    frame (length (heap s)) s (snd (step ct roots (OpDelAttr x a) s)).
+  Proof.
+    intros Hx Hl Hn Hk Hd. unfold step. rewrite Hx. cbn [loc_of].
+    rewrite bind_ok with (a := l) (s1 := s) by reflexivity.
+    change (exec ct XFUEL (KDelAttr l a false false)) with (delattr_ ct (exec ct 39) l a false false).
+    revert e. apply err_frame_then_ret.
+    apply (delattr_err_frame ct no_dnc (length (heap s)) (exec ct 39)
+             (exec_framed ct no_dnc (length (heap s)) 39) l a false s c d k); auto.
+  Qed.
 End ElemStep.
